@@ -109,9 +109,10 @@ func drawC04(t *rapid.T) C04Case {
 		MaxActions: rapid.SampledFrom([]int{4, 8, 15, 30}).Draw(t, "maxActions"),
 		Accruals:   rapid.IntRange(0, 3).Draw(t, "accruals") == 0,
 		Assertions: true, Closes: true,
-		Prices:  rapid.SampledFrom([]int{0, 0, 1}).Draw(t, "prices"),
-		MaxDec:  rapid.SampledFrom([]int{2, 4, 8}).Draw(t, "maxDec"),
-		Unicode: rapid.IntRange(0, 4).Draw(t, "unicode") == 0,
+		Prices:    rapid.SampledFrom([]int{0, 0, 1}).Draw(t, "prices"),
+		MaxDec:    rapid.SampledFrom([]int{2, 4, 8}).Draw(t, "maxDec"),
+		Unicode:   rapid.IntRange(0, 4).Draw(t, "unicode") == 0,
+		WideDates: true,
 	}
 	j := gen.GenJournal(t, cfg)
 	var c C04Case
